@@ -13,7 +13,7 @@ From Soy Require Import Proofs.MsgIdProofs.
 From Soy Require Import Model.Bytes Model.Outcome Model.Num Model.Values Model.Ast Model.MsgId
   Model.Escape Model.Interp Model.MsgParts Spec.MsgCat Proofs.MsgPartsProofs Proofs.InterpRelProofs Proofs.InterpPosProofs Proofs.MsgCatProofs
   Proofs.MsgPluralProofs Model.PoFile Proofs.PoFileProofs Model.JsGen Proofs.MsgJsProofs
-  Model.PoEntry Proofs.PoEntryProofs Model.PoBundle Proofs.PoBundleProofs Model.PoHeader Proofs.PoHeaderProofs Model.MiniJS Proofs.InterpGuard Proofs.MiniJSProofs Proofs.MiniJSPrint Proofs.MiniJSCtl Proofs.MiniJSGo Proofs.MiniJSStmt Proofs.MiniJSGen Proofs.MiniJSSim Proofs.MsgWalkEq Proofs.MsgWalkEqCalls Proofs.MsgThreeSided.
+  Model.PoEntry Proofs.PoEntryProofs Model.PoBundle Proofs.PoBundleProofs Model.PoHeader Proofs.PoHeaderProofs Proofs.PoCatalogueRender Model.MiniJS Proofs.InterpGuard Proofs.MiniJSProofs Proofs.MiniJSPrint Proofs.MiniJSCtl Proofs.MiniJSGo Proofs.MiniJSStmt Proofs.MiniJSGen Proofs.MiniJSSim Proofs.MsgWalkEq Proofs.MsgWalkEqCalls Proofs.MsgThreeSided.
 Open Scope N_scope.
 
 (* ------------------------------------------------------------------ *)
@@ -650,6 +650,23 @@ Theorem C11_po_load_no_header : forall is_print (es : list xentry) (locale : bst
 Proof. exact load_no_header. Qed.
 Print Assumptions C11_po_load_no_header.
 
+(* THE CHAIN CLOSED for a flat message: from the BYTES of a catalogue -- a header that names a known plural rule, the
+   extractor's entries with ids 1 .. 2^64-1 and any msgstr, the LAST translated entry under the message's id ([po_find]:
+   what newBundle's map keeps) being a singular entry with msgstr_of tr -- through po.Parse, ReadMIMEHeader, the
+   Plural-Forms lookup and pomsg.newBundle under any locale name, to what soyhtml's evalMsg does with the loaded bundle
+   and the loaded selector, for EVERY walker: it runs the translation's items (text segments where the translator put
+   them, every slot by walking the first placeholder of the message that carries its name) *)
+Theorem C11_catalogue_renders_translation : forall is_print (h : poh_header) (es : list xentry) (locale : bstr) (c : N)
+    (w : node -> M value) (mp id : N) (body : list node) (tr : list titem) (e : po_entry),
+  h <> [] -> poh_hdr_ok h -> Forall xentry_ok es -> Forall xentry_id64 es -> Forall xentry_id_nz es ->
+  poh_lookup_selector (poh_get poh_k_plural_forms h) = Some c ->
+  id <> 0 -> po_find (map xentry_po es) id None = Some e -> po_var e = [] -> po_strs e = [msgstr_of tr] ->
+  forallb flat_node body = true -> items_named body tr -> parts_clean (map item_part tr) ->
+  exists bd, poh_load locale (poh_write_file is_print h (map xentry_msg es)) = Ok (bd, c)
+    /\ eval_msg (poh_plural_index c) bd w mp id body = run_items w (map (resolve body) tr).
+Proof. exact catalogue_renders_translation. Qed.
+Print Assumptions C11_catalogue_renders_translation.
+
 (* every selector answers below the number of forms its Plural-Forms declares, for every Go int (negative ones too) *)
 Theorem C11_po_select_in_range : forall code n, (0 <= poh_select code n < poh_nplurals code)%Z.
 Proof. exact select_in_range. Qed.
@@ -672,6 +689,30 @@ Proof.
   split; [discriminate|]. split.
   { repeat constructor; vm_compute; try reflexivity; try discriminate;
       repeat (constructor; [reflexivity|]); try constructor. }
+  repeat split; vm_compute; reflexivity.
+Qed.
+
+(* non-vacuity of the chain: a catalogue of two entries under one id (the later, translated one wins) for the message
+   "A {XXX} B{X}" of ex_call_slots below, with an English header, loaded under the name "zz" *)
+Definition ex_cat_entries : list xentry :=
+  [(b "first try", 9, None, {| pf_ctxt := []; pf_id := b "A {XXX} B{X}"; pf_id_plural := []; pf_str := [b "old"] |});
+   (b "a call and a print", 9, None, {| pf_ctxt := []; pf_id := b "A {XXX} B{X}"; pf_id_plural := []; pf_str := [b "{X}{XXX} -- "] |});
+   (b "untranslated", 10, None, {| pf_ctxt := []; pf_id := b "other"; pf_id_plural := []; pf_str := [] |})].
+Definition ex_cat_header : poh_header :=
+  [(b "Language", b "en"); (b "Plural-Forms", b "nplurals=2; plural=(n != 1);")].
+Example ex_catalogue_chain :
+  poh_hdr_ok ex_cat_header /\ Forall xentry_ok ex_cat_entries /\ Forall xentry_id64 ex_cat_entries /\ Forall xentry_id_nz ex_cat_entries
+  /\ poh_lookup_selector (poh_get poh_k_plural_forms ex_cat_header) = Some 1
+  /\ po_find (map xentry_po ex_cat_entries) 9 None = Some {| po_id := 9; po_var := []; po_strs := [b "{X}{XXX} -- "] |}
+  /\ (match poh_load (b "zz") (poh_write_file (fun _ => true) ex_cat_header (map xentry_msg ex_cat_entries)) with
+      | Ok (bd, c) => (bundle_message bd 9, bundle_message bd 10, c)
+      | _ => (None, None, 0)
+      end) = (Some (new_message [] [b "{X}{XXX} -- "]), None, 1).
+Proof.
+  split. { repeat constructor; vm_compute; try reflexivity; try discriminate; repeat (constructor; [reflexivity|]); try constructor. }
+  split. { repeat constructor; vm_compute; repeat constructor; lia. }
+  split. { repeat constructor; vm_compute; reflexivity. }
+  split. { repeat constructor; discriminate. }
   repeat split; vm_compute; reflexivity.
 Qed.
 
@@ -789,6 +830,29 @@ Theorem C11_three_sided_translation_partial : forall cf plural_index bd o lv den
     /\ sim cf (cc_nocalls denv) st' je' jst' (old ++ text) /\ lvok lv (j_scope jst').
 Proof. exact three_sided_translation. Qed.
 Print Assumptions C11_three_sided_translation_partial.
+
+(* THE STATEMENT WITH CALL SLOTS (stated, NOT proved; C04's call stage -- C04_gen_correct_partial_call, callctx_ok --
+   reached main at the end of wave 3).  With one more constructor of [item_stmt],
+       is_call p n name d ps : item_stmt (TPh p n (snode (SCall name d ps))) (SCall name d ps),
+   any call context [cc] in place of [cc_nocalls denv], and the fuel measured as C04's call stage measures it:
+
+     forall cf plural_index bd o lv cc, callctx_ok cf o' cc (o' = o without its catalogue, as C04 states its contexts) ->
+     forall fuel mp id body tr msgs ss,
+       forallb flat_node body = true -> items_named body tr -> parts_clean (map item_part tr) ->
+       bundle_message bd id = Some (new_message [] [msgstr_of tr]) ->
+       o_msgs o = Some msgs -> assoc_n id msgs = Some (jparts_of_cmsg (new_message [] [msgstr_of tr])) ->
+       Forall2 item_stmt (map (resolve body) tr) ss -> reg_msgfree cf ->
+       forall st je jst old text,
+       c_oblig cf = [] -> Forall (fun s => (cc_fuel cc + sdepth s < fuel)%nat) ss -> Forall (fun s => swf lv s = true) ss ->
+       sim cf cc st je jst old -> lvok lv (j_scope jst) ->
+       stmts_text' cf cc (mode st) (sc_lookup (ctx st)) ss = Some text ->        (sout over cc_denv cc / cc_callee cc)
+       exists st' ws je' jst', [the six conclusions above with cc for cc_nocalls denv].
+
+   What is proved of it: the Go conjunct for every slot kind, calls included, without C04's subset restrictions
+   (C11_translation_call_slots: evalMsg with the bundle = the plain walker over the resolved items; reg_msgfree is what
+   lets walk_b be replaced by walk under a call), and all three conjuncts for prints and tags (the theorem above).
+   Missing: Proofs/MsgThreeSided.v's stmt_step_strong for SCall from C04's sim_step (the generator's scope and counter
+   after a call with content parameters), and stmts_text / stmts_js over a context with calls. *)
 
 (* non-vacuity: "Hello {X}, {A_B}!{BREAK}" translated to "{BREAK}{A_B} -- {X}: hola" with x = 4 in the generated variable x_3
    and a.b = "1<2" in opt_data, autoescape on: the items resolve to core prints, the subset semantics gives the
